@@ -1,11 +1,14 @@
 #!/bin/bash
-# seedtest.sh <patch file> <tier> <property>...   applies a seeded change to /repo, runs the checks, undoes it
-patch=$1; tier=$2; shift 2
-cd /repo || exit 2
-if [ -n "$(git status --porcelain)" ]; then echo "/repo is not clean"; exit 2; fi
-git apply "$patch" || { echo "patch does not apply"; exit 2; }
+# seedtest.sh <patch file> <tier> <property>...
+# Runs the registered checks against a seeded change WITHOUT touching /repo: the patch is applied to a scratch worktree of
+# /repo (removed afterwards), the checks build against it (VERIF_REPO) and write their evidence to a scratch directory
+# (VERIF_EVIDENCE), so /verif/evidence only ever holds runs against /repo itself.
+patch=$(readlink -f "$1"); tier=$2; shift 2
+wt=$(mktemp -d /tmp/seedwt-XXXXXX); ev=$(mktemp -d /tmp/seedev-XXXXXX)
+git -C /repo worktree add --detach "$wt" HEAD >/dev/null 2>&1 || { echo "cannot create worktree"; exit 2; }
+trap 'git -C /repo worktree remove --force "$wt" >/dev/null 2>&1; rm -rf "$wt" "$ev"' EXIT
+( cd "$wt" && git apply "$patch" ) || { echo "patch does not apply"; exit 2; }
 for p in "$@"; do
   echo "=== $p ($tier) with $(basename $(dirname $patch))/$(basename $patch)"
-  (cd /verif && python3 tools/check.py $p --tier $tier 2>&1 | tail -12; echo "exit=${PIPESTATUS[0]}")
+  (cd /verif && VERIF_REPO="$wt" VERIF_EVIDENCE="$ev" python3 tools/check.py $p --tier $tier 2>&1 | tail -12; echo "exit=${PIPESTATUS[0]}")
 done
-git checkout -- . && git status --porcelain
